@@ -389,6 +389,11 @@ func RunCase(c *Case) *Result {
 	res := &Result{}
 	for i, s := range c.Msgs {
 		content, rerr := Render(i, s)
+		if (s.Kind == 'w' || s.Kind == 'a') && rerr == nil {
+			// the specification says the producer fails: whether the rendering failed is not for the library's
+			// own WriteTo to decide (a WriteTo that swallows the producer's error must not fool the oracle)
+			rerr = fmt.Errorf("verif: WriteTo reported no error although the producer failed: %w", errors.New(s.errText()))
+		}
 		res.Contents = append(res.Contents, content)
 		res.Failed = append(res.Failed, rerr != nil)
 		res.RenderErr = append(res.RenderErr, rerr)
